@@ -220,10 +220,13 @@ class FileServer(Resource, aiocoap.interfaces.ObservableResource):
         #
         # If there is not, secure temporary file creation is as good as
         # anything else.
-        with tempfile.NamedTemporaryFile(dir=path.parent, delete=False) as spool:
-            spool.write(request.payload)
-            temppath = Path(spool.name)
+        spool = tempfile.NamedTemporaryFile(dir=path.parent, delete=False)
+        temppath = Path(spool.name)
         try:
+            # Writing (and the flush on close) can fail as well, eg. on a full
+            # disk; the temporary file must not be left behind then either.
+            with spool:
+                spool.write(request.payload)
             temppath.rename(path)
         except Exception:
             temppath.unlink()
